@@ -557,4 +557,225 @@ def semRun : Nat → List (Bool × Bool × Bool) → Option Nat
     | some p' => semRun p' rs
     | none => none
 
+/-! ### Phase 4: the download semaphore (`CobaContext.store['openml_semaphore']`) as an interleaving system -/
+
+/-- one `OpenmlSource.read` as far as the semaphore is concerned -/
+structure SRead where
+  c1 : Bool     -- `_source_already_cached()` at the first check
+  c2 : Bool     -- … at the re-check after `acquire()` returned (a peer may have cached everything meanwhile)
+  exc : Bool    -- the download / parse / the consumer raises (any BaseException, GeneratorExit of an abandoned read included)
+  deriving DecidableEq, Repr
+
+inductive SPc where
+  | idle                  -- between reads
+  | want (r : SRead)      -- next: `openml_semaphore.acquire()` (waits while no permit is free)
+  | recheck (r : SRead)   -- holds a permit; next: the re-check `_source_already_cached()`
+  | inside (r : SRead)    -- `semaphore_acquired = True`: downloading, holds a permit
+  | fin (held : Bool)     -- in `finally:`; next: `if semaphore_acquired: openml_semaphore.release()`
+  deriving DecidableEq, Repr
+
+inductive SEv where
+  | cachedRead | request | acquire | wait | releaseEarly | enterDownload | done | raised | release | noRelease
+  deriving DecidableEq, Repr
+
+structure SCaller where
+  pc : SPc
+  todo : List SRead
+
+structure SSt where
+  free : Nat
+  cs : List SCaller
+
+def SCaller.terminal (c : SCaller) : Bool := (c.pc == SPc.idle) && c.todo.isEmpty
+
+/-- 1 while the caller holds a permit -/
+def SCaller.holds (c : SCaller) : Nat :=
+  match c.pc with
+  | .recheck _ => 1 | .inside _ => 1 | .fin true => 1 | _ => 0
+
+/-- 1 while the caller is downloading (between `semaphore_acquired = True` and the `finally`) -/
+def SCaller.downloading (c : SCaller) : Nat :=
+  match c.pc with
+  | .inside _ => 1 | _ => 0
+
+def semStepC (free : Nat) (c : SCaller) : Option (SEv × Nat × SCaller) :=
+  match c.pc with
+  | .idle =>
+    match c.todo with
+    | [] => none
+    | r :: t => if r.c1 then some (.cachedRead, free, { pc := .fin false, todo := t })
+                else some (.request, free, { pc := .want r, todo := t })
+  | .want r => if 0 < free then some (.acquire, free - 1, { c with pc := .recheck r }) else some (.wait, free, c)
+  | .recheck r => if r.c2 then some (.releaseEarly, free + 1, { c with pc := .fin false })
+                  else some (.enterDownload, free, { c with pc := .inside r })
+  | .inside r => some (if r.exc then .raised else .done, free, { c with pc := .fin true })
+  | .fin true => some (.release, free + 1, { c with pc := .idle })
+  | .fin false => some (.noRelease, free, { c with pc := .idle })
+
+def sstep (s : SSt) (i : Nat) : Option (SEv × SSt) :=
+  match s.cs[i]? with
+  | none => none
+  | some c =>
+    match semStepC s.free c with
+    | none => none
+    | some (ev, f, c') => some (ev, { free := f, cs := s.cs.set i c' })
+
+def sinit (permits : Nat) (progs : List (List SRead)) : SSt :=
+  { free := permits, cs := progs.map (fun p => { pc := .idle, todo := p }) }
+
+inductive SReachable (permits : Nat) (progs : List (List SRead)) : SSt → Prop
+  | init : SReachable permits progs (sinit permits progs)
+  | step {s s' i ev} : SReachable permits progs s → sstep s i = some (ev, s') → SReachable permits progs s'
+
+def ssum (f : SCaller → Nat) : List SCaller → Nat
+  | [] => 0
+  | c :: cs => f c + ssum f cs
+
+def SSt.holders (s : SSt) : Nat := ssum SCaller.holds s.cs
+def SSt.downloads (s : SSt) : Nat := ssum SCaller.downloading s.cs
+def SSt.allTerminal (s : SSt) : Bool := s.cs.all SCaller.terminal
+
+def srun : SSt → List Nat → SSt × List (Nat × SEv)
+  | s, [] => (s, [])
+  | s, i :: is =>
+    match sstep s i with
+    | none => srun s is
+    | some (ev, s') => let r := srun s' is; (r.1, (i, ev) :: r.2)
+
+def SPc.rank : SPc → Nat
+  | .idle => 0 | .want _ => 5 | .recheck _ => 4 | .inside _ => 3 | .fin _ => 1
+
+def SCaller.measure (c : SCaller) : Nat := c.pc.rank + 7 * c.todo.length
+def SSt.measure (s : SSt) : Nat := ssum SCaller.measure s.cs
+
+/-! ### Phase 4: the DiskCacher write as several steps inside the scheduled system
+
+`DiskCacher.get_set` writes in place: `gzip.open(path, "wt+")` creates / truncates the file (zero-length on disk
+until the first flush), the lines are written one by one, leaving the `with` closes it.  The file-level system
+`DSt` pairs the lock-protocol state `St` with the files; on its turn a caller performs its next protocol step
+(`DAct.base`) or, while it is the writer of an entry (`gsPopW`), writes one more chunk / closes the file — these
+are extra steps of the schedule, so every other caller can run between any two of them. -/
+
+inductive FileSt where
+  | absent
+  | opened (w : List Nat)     -- created by `gzip.open(…, "wt+")`, not yet closed; `w` = chunks written so far (`[]`: zero-length)
+  | closed (w : List Nat)     -- closed (a valid gzip file with this content)
+  deriving DecidableEq, Repr
+
+/-- what `DiskCacher.get_set(key, None)` — the read path of ConcurrentCacher — does with the file as it is -/
+inductive DiskRead where
+  | complete (w : List Nat)      -- a closed file: a reader on its whole content
+  | partialSeen (w : List Nat)   -- a file that is still being written is opened: short content / EOFError
+  | zeroLength                   -- `getsize == 0`: the reader REMOVES the file under the writer and fails on `for line in None`
+  | missing                      -- no file: `for line in None` raises
+  deriving DecidableEq, Repr
+
+def diskRead : FileSt → DiskRead
+  | .absent => .missing
+  | .opened [] => .zeroLength
+  | .opened (b :: w) => .partialSeen (b :: w)
+  | .closed w => .complete w
+
+structure DSt where
+  base : St
+  file : Nat → FileSt
+
+inductive DAct where
+  | base               -- the caller's next step of the lock protocol / inner-cache call (`step`)
+  | chunk (b : Nat)    -- the writer writes one more chunk
+  | close              -- the writer leaves `with gzip.open(...)`: the file is closed
+  deriving DecidableEq, Repr
+
+inductive DEv where
+  | base (ev : Ev) (obs : Option DiskRead)   -- `obs`: what a `cget` found on disk
+  | chunk (k b : Nat)
+  | close (k : Nat)
+  deriving DecidableEq, Repr
+
+/-- a successful getter writes exactly the chunks of its value (`enc v`), in order; a failing one wrote anything before it raised -/
+def chunkOk (enc : Nat → List Nat) (g : Getter) (w : List Nat) (b : Nat) : Bool :=
+  match g with
+  | .ok v => (w ++ [b]).isPrefixOf (enc v)
+  | .fail => true
+
+def closeOk (enc : Nat → List Nat) (g : Getter) (w : List Nat) : Bool :=
+  match g with
+  | .ok v => w == enc v
+  | .fail => true
+
+/-- `DiskCacher.get_set` returns (event `cpop`) only after the file was completely written and closed -/
+def baseOk (enc : Nat → List Nat) (file : Nat → FileSt) : Ev → Bool
+  | .cpop k v => file k == .closed (enc v)
+  | _ => true
+
+def fileAfter (file : Nat → FileSt) : Ev → Nat → FileSt
+  | .ccreate k => upd file k (.opened [])     -- open + truncate
+  | .cpopFail k => upd file k .absent         -- `except: if key in self: self.rmv(key); raise`
+  | .crmv k _ => upd file k .absent
+  | _ => file
+
+def obsOf (file : Nat → FileSt) : Ev → Option DiskRead
+  | .cget k _ => some (diskRead (file k))
+  | _ => none
+
+def dstep (enc : Nat → List Nat) (idx : Nat → Nat) (s : DSt) (i : Nat) (a : DAct) : Option (DEv × DSt) :=
+  match a with
+  | .base =>
+    match step idx s.base i with
+    | none => none
+    | some (ev, b') =>
+      if baseOk enc s.file ev then some (.base ev (obsOf s.file ev), { base := b', file := fileAfter s.file ev }) else none
+  | .chunk b =>
+    match s.base.cs[i]? with
+    | none => none
+    | some c =>
+      match c.pc with
+      | .gsPopW k g =>
+        match s.file k with
+        | .opened w => if chunkOk enc g w b then some (.chunk k b, { s with file := upd s.file k (.opened (w ++ [b])) }) else none
+        | _ => none
+      | _ => none
+  | .close =>
+    match s.base.cs[i]? with
+    | none => none
+    | some c =>
+      match c.pc with
+      | .gsPopW k g =>
+        match s.file k with
+        | .opened w => if closeOk enc g w then some (.close k, { s with file := upd s.file k (.closed w) }) else none
+        | _ => none
+      | _ => none
+
+def dinit (progs : List (List (List Instr))) : DSt := { base := init progs, file := fun _ => .absent }
+
+inductive DReachable (enc : Nat → List Nat) (idx : Nat → Nat) (progs : List (List (List Instr))) : DSt → Prop
+  | init : DReachable enc idx progs (dinit progs)
+  | step {s s' i a ev} : DReachable enc idx progs s → dstep enc idx s i a = some (ev, s') → DReachable enc idx progs s'
+
+/-- run a schedule of (caller, action) pairs; entries without a step are skipped -/
+def drun (enc : Nat → List Nat) (idx : Nat → Nat) : DSt → List (Nat × DAct) → DSt × List (Nat × DEv)
+  | s, [] => (s, [])
+  | s, (i, a) :: is =>
+    match dstep enc idx s i a with
+    | none => drun enc idx s is
+    | some (ev, s') => let r := drun enc idx s' is; (r.1, (i, ev) :: r.2)
+
+/-- files and inner-cache contents agree: a cached entry's file is closed and complete; a key that is neither
+cached nor being written has no file -/
+def DInv (enc : Nat → List Nat) (s : DSt) : Prop :=
+  ∀ k, (∀ v, s.base.cache k = some v → s.file k = .closed (enc v)) ∧
+       (s.base.cache k = none → partialWriter s.base k = false → s.file k = .absent)
+
+/-- the same two callers WITHOUT ConcurrentCacher (a bare DiskCacher shared by two processes): the reader's
+`get_set` runs while the writer's file is open -/
+def rawDiskRace (written : List Nat) : DiskRead := diskRead (.opened written)
+
+
+/-! ### constants the model assumes (compared with the ones extracted from the source, `Generated/C19Consts.lean`) -/
+/-- permits of the `openml_semaphore` CobaMultiprocessor installs -/
+def modelPermits : Nat := 3
+/-- bytes of the key digest that index the lock table; the table has `256 ^ modelDigestBytes` slots -/
+def modelDigestBytes : Nat := 2
+def modelSlots : Nat := 65536
+
 end Coba.C19
